@@ -14,6 +14,7 @@ import ast
 from sa.core import rule, AnalysisError
 from sa.pyindex import get_module, dotted, src, calls_in, try_fold, walk_no_nested, all_py_files
 from sa import flow
+from rules import _util_c11c01 as _u
 
 EXPLANATION = (
     "Static guard rails for the pyi optimiser, evaluated on the AST of "
@@ -139,6 +140,37 @@ CREATES_ANY_CONTAINER = {
 }
 
 _FUNCS = (ast.FunctionDef, ast.AsyncFunctionDef)
+
+
+def _opt(ctx):
+  """pytd/optimize.py with `Optimize` in normal form: calls to module-local
+  helpers inlined, conditional expressions that select a helper call lowered
+  to `if`, loops over a literal tuple of passes unrolled (rules/_util_c11c01:
+  a semantics-preserving rewriting; the original module when nothing needs
+  rewriting).  The flow rules (R11.2/4/5/6/7) then see one pass application
+  per statement wherever the source keeps it."""
+  mod = get_module(ctx, OPT)
+
+  def make():
+    m, inlined = _u.normalized_function(mod, "Optimize")
+    if inlined:
+      ctx.note(f"C11: Optimize analysed with the module-local helpers {inlined} "
+               "inlined")
+    return m
+  return ctx.memo(("c11norm", OPT), make)
+
+
+def _methods(mod, cls):
+  """Methods of `cls`, resolved through its module-local base classes."""
+  return _u.methods_mro(mod, cls)
+
+
+def _method(mod, cls, name):
+  m = _methods(mod, cls).get(name)
+  if m is None:
+    raise AnalysisError(f"anchor {cls}.{name} not found in {mod.rel} (also not "
+                        "in a module-local base class)")
+  return m
 
 
 def _qualname(mod, node):
@@ -277,7 +309,7 @@ def _pass_calls(fn):
 @rule("R11.2", "C11", floor=5)
 def r11_2(ctx):
   """Meaning-changing passes of Optimize are guarded by their flag."""
-  mod = get_module(ctx, OPT)
+  mod = _opt(ctx)
   fn = mod.func("Optimize")
   params = set(_signature(fn))
   for flag in set(GUARDED.values()):
@@ -354,7 +386,7 @@ def r11_3(ctx):
             f"generic_type is assigned {vals}; long unions must collapse to "
             "Any (pytd.AnythingType()), never to a narrower type",
             {"values": vals})
-  vu = mod.func(f"{cls}.VisitUnionType")
+  vu = _method(mod, cls, "VisitUnionType")
   params = [a.arg for a in vu.args.args]
   if len(params) != 2:
     raise AnalysisError(f"{cls}.VisitUnionType signature not understood")
@@ -397,27 +429,76 @@ def r11_3(ctx):
   ctx.check(long_arm == "top", f"{cls}.VisitUnionType:over-long-arm", OPT,
             vu.lineno, f"the over-long arm returns {long_arm}; it must return "
             "self.generic_type", {"returns": long_arm})
-  # JoinTypes: the arm taken when some member is Any
+  # JoinTypes: the returns taken when some member is Any
   um = get_module(ctx, UTILS)
   jt = um.func("JoinTypes")
-  arms = [n for n in ast.walk(jt) if isinstance(n, ast.If) and any(
-      isinstance(c, ast.Call) and dotted(c.func) == "isinstance"
-      and len(c.args) == 2 and (dotted(c.args[1]) or "").endswith("AnythingType")
-      for c in ast.walk(n.test))]
-  if len(arms) != 1:
-    raise AnalysisError("JoinTypes: the Any arm was not recognised")
-  arm = arms[0]
+
+  def any_member_is_any(n):
+    """any(isinstance(t, ..AnythingType) for t in <V>) -> V (else None)"""
+    if not (isinstance(n, ast.Call) and dotted(n.func) == "any" and len(n.args) == 1
+            and not n.keywords
+            and isinstance(n.args[0], (ast.GeneratorExp, ast.ListComp))):
+      return None
+    comp = n.args[0]
+    if len(comp.generators) != 1 or comp.generators[0].ifs:
+      return None
+    g, e = comp.generators[0], comp.elt
+    if isinstance(g.target, ast.Name) and isinstance(g.iter, ast.Name) and \
+        isinstance(e, ast.Call) and dotted(e.func) == "isinstance" and \
+        len(e.args) == 2 and isinstance(e.args[0], ast.Name) and \
+        e.args[0].id == g.target.id and \
+        (dotted(e.args[1]) or "").split(".")[-1] == "AnythingType":
+      return g.iter.id
+    return None
+  atoms = [n for n in walk_no_nested(jt) if any_member_is_any(n) is not None]
+  if len(atoms) != 1:
+    raise AnalysisError("JoinTypes: the Any arm was not recognised (expected one "
+                        "`any(isinstance(t, AnythingType) for t in <members>)` test)")
+  members = any_member_is_any(atoms[0])
+  if not flow.terminates(jt.body):
+    raise AnalysisError("JoinTypes: some path ends without a return statement")
   defs = {n.targets[0].id: n.value for n in ast.walk(jt)
           if isinstance(n, ast.Assign) and len(n.targets) == 1
           and isinstance(n.targets[0], ast.Name)}
-  rets = []
-  ok = True
-  body_returns = [n for st in arm.body for n in ast.walk(st)
-                  if isinstance(n, ast.Return)]
-  if not body_returns or not flow.terminates(arm.body):
-    ok = False
-  for r in body_returns:
+
+  def size_fact(test, pol):
+    """The guard decides the number of members: 'one' / 'none' / None."""
+    def one(n):
+      return isinstance(n, ast.Compare) and len(n.ops) == 1 and \
+          isinstance(n.ops[0], ast.Eq) and src(n.left) == f"len({members})" and \
+          isinstance(n.comparators[0], ast.Constant) and n.comparators[0].value == 1
+
+    def nonempty(n):
+      return isinstance(n, ast.Name) and n.id == members
+    if _u.implied(test, pol, one) is True:
+      return "one"
+    if _u.implied(test, pol, nonempty) is False:
+      return "none"
+    return None
+  rets, early = [], []
+  arm_line = None
+  for r in sorted(_returns(jt), key=lambda r: r.lineno):
+    g = flow.guards(um.parent, r, stop=jt)
+    verdicts = {_u.implied(tst, pol, lambda n: n is atoms[0]) for tst, pol in g}
+    if True in verdicts and False in verdicts:
+      continue    # unreachable
+    if False in verdicts:
+      continue    # no member is Any on this path
     v = r.value
+    if True not in verdicts:
+      # evaluated before the test: fine for a single member (it is returned
+      # as it is) or no member at all; anything else is not understood
+      sizes = {size_fact(tst, pol) for tst, pol in g} - {None}
+      single = "one" in sizes and v is not None and (
+          src(v) in (f"{members}[0]", f"{members}[-1]", f"{members}.pop()",
+                     f"next(iter({members}))"))
+      if not (single or sizes == {"none"}):
+        raise AnalysisError(
+            f"JoinTypes: `{src(r)}` is reached before the member-is-Any test "
+            "under a condition the rule does not understand")
+      early.append(src(r))
+      continue
+    arm_line = arm_line or r.lineno
     if _is_anything(v):
       rets.append("Any")
     elif isinstance(v, ast.Call) and \
@@ -433,11 +514,14 @@ def r11_3(ctx):
                   else "other:" + src(v))
     else:
       rets.append("other:" + (src(v) if v is not None else "None"))
-  ok = ok and all(r in ("Any", "Union[Any, None]") for r in rets)
-  ctx.check(ok, "JoinTypes:Any-arm", UTILS, arm.lineno,
+  if not rets:
+    raise AnalysisError("JoinTypes: no return is taken under the member-is-Any "
+                        "condition")
+  ok = all(r in ("Any", "Union[Any, None]") for r in rets)
+  ctx.check(ok, "JoinTypes:Any-arm", UTILS, arm_line,
             f"when a member is Any, JoinTypes returns {rets}; it must return "
             "Any or Union[Any, None] (anything narrower drops values)",
-            {"returns": rets})
+            {"returns": rets, "members": members, "before_the_test": early})
 
 
 def _all_params_any(test):
@@ -462,7 +546,7 @@ def _all_params_any(test):
 @rule("R11.4", "C11", floor=2)
 def r11_4(ctx):
   """SimplifyContainers runs again after every pass that can create X[Any]."""
-  mod = get_module(ctx, OPT)
+  mod = _opt(ctx)
   fn = mod.func("Optimize")
 
   def passes(unit):
@@ -497,7 +581,7 @@ def r11_4(ctx):
             {"producers": producers, "exits": len(exits)})
   # the simplifier itself: a generic type whose parameters are all Any
   # becomes its base type (and nothing else is rewritten)
-  sc = mod.func("SimplifyContainers._Simplify")
+  sc = _method(mod, "SimplifyContainers", "_Simplify")
   rets = _returns(sc)
   guards_ok = False
   kinds = []
@@ -523,7 +607,7 @@ def _rejoins_unions(mod, cls_name):
   unconditional or taken when <generic/Any> is in the union."""
   if cls_name not in mod.classes:
     return False
-  vu = mod.methods(cls_name).get("VisitUnionType")
+  vu = _methods(mod, cls_name).get("VisitUnionType")
   if vu is None or len(vu.args.args) != 2:
     return False
   u = vu.args.args[1].arg
@@ -548,7 +632,7 @@ def _puts_any_into_types(mod, cls_name, seen=()):
   (directly, or through a visitor it applies to sub-trees)?"""
   if cls_name not in mod.classes or cls_name in seen:
     return False
-  for name, m in mod.methods(cls_name).items():
+  for name, m in _methods(mod, cls_name).items():
     if not name.startswith("Visit") or name == "VisitUnionType":
       continue
     for r in _returns(m):
@@ -559,7 +643,7 @@ def _puts_any_into_types(mod, cls_name, seen=()):
         return True
       d = dotted(v)
       if d and d.startswith("self."):
-        init = mod.methods(cls_name).get("__init__")
+        init = _methods(mod, cls_name).get("__init__")
         if init is not None and any(
             isinstance(a, ast.Assign) and dotted(a.targets[0]) == d
             and _is_anything(a.value) for a in ast.walk(init)):
@@ -576,7 +660,7 @@ def _puts_any_into_types(mod, cls_name, seen=()):
 @rule("R11.5", "C11", floor=1)
 def r11_5(ctx):
   """After a pass that can put Any into a union, unions are re-joined."""
-  mod = get_module(ctx, OPT)
+  mod = _opt(ctx)
   fn = mod.func("Optimize")
 
   def passes(unit):
@@ -719,7 +803,7 @@ def _hierarchy_model(ctx, mod):
     if len(ctor) != 1 or len(ctor[0].args) != 1 or ctor[0].keywords:
       raise AnalysisError(f"Optimize: expected one {HIER}(<mapping>) call")
     arg_dirs = _mapping_direction(mod, opt, ctor[0].args[0], f"Optimize:{HIER}")
-    init = mod.func(f"{HIER}.__init__")
+    init = _method(mod, HIER, "__init__")
     params = [a.arg for a in init.args.args[1:]]
     if len(params) != 1:
       raise AnalysisError(f"{HIER}.__init__ signature not understood")
@@ -757,7 +841,7 @@ def _hierarchy_model(ctx, mod):
               and (dotted(st.targets[0]) or "").startswith("self.")):
         raise AnalysisError(f"{HIER}.__init__: `{src(st)}` not understood")
       fields[dotted(st.targets[0]).split(".")[1]] = field_dir(st.value)
-    methods = mod.methods(HIER)
+    methods = _methods(mod, HIER)
     # fields must not be rebound / mutated outside __init__
     for name, m in methods.items():
       if name == "__init__":
@@ -814,6 +898,17 @@ def _hierarchy_consumers(mod, fn):
              if isinstance(n, ast.Assign) and len(n.targets) == 1
              and isinstance(n.targets[0], ast.Name)
              and isinstance(n.value, ast.Call) and _last(n.value.func) == HIER}
+  # plain copies of such a local (`hierarchy = h`, e.g. the value an inlined
+  # helper returns)
+  grew = True
+  while grew:
+    grew = False
+    for n in walk_no_nested(fn):
+      if isinstance(n, ast.Assign) and len(n.targets) == 1 and \
+          isinstance(n.targets[0], ast.Name) and isinstance(n.value, ast.Name) \
+          and n.value.id in locals_ and n.targets[0].id not in locals_:
+        locals_.add(n.targets[0].id)
+        grew = True
   out = []
   for c in calls_in(fn):
     name = _last(c.func)
@@ -827,7 +922,7 @@ def _hierarchy_consumers(mod, fn):
 
 def _hierarchy_attr(mod, cls):
   """Attribute of visitor `cls` that holds the constructor's hierarchy argument."""
-  init = mod.methods(cls).get("__init__")
+  init = _methods(mod, cls).get("__init__")
   if init is None or len(init.args.args) != 2:
     raise AnalysisError(f"{cls}.__init__(self, hierarchy) not recognised")
   p = init.args.args[1].arg
@@ -918,6 +1013,41 @@ def _count_threshold(cond, t):
   return l.value.id, _rename(l.slice, t)
 
 
+def _counter_of_generator(mod, m, call, st, counter, u, what):
+  """`COUNT = [collections.]Counter(N for T in <..u.type_list..> [if ..] for N in
+  <call>)`: the closure of every (selected) member is counted element by
+  element, exactly what `COUNT += Counter(<call>)` in a loop over the members
+  does.  -> T (the member variable), or None if `call` is not in that position."""
+  comp = mod.parent.get(mod.parent.get(call))
+  if not (isinstance(mod.parent.get(call), ast.comprehension)
+          and isinstance(comp, (ast.GeneratorExp, ast.ListComp))):
+    return None
+  ctor = mod.parent.get(comp)
+  if not (isinstance(st, ast.Assign) and len(st.targets) == 1
+          and isinstance(st.targets[0], ast.Name) and st.targets[0].id == counter
+          and isinstance(ctor, ast.Call) and st.value is ctor
+          and _last(ctor.func) == "Counter" and ctor.args == [comp]
+          and not ctor.keywords):
+    return None
+  gens = comp.generators
+  if not (len(gens) == 2 and gens[1].iter is call and not gens[1].ifs
+          and isinstance(gens[1].target, ast.Name)
+          and isinstance(comp.elt, ast.Name) and comp.elt.id == gens[1].target.id
+          and isinstance(gens[0].target, ast.Name)
+          and gens[0].target.id != gens[1].target.id
+          and not any(g.is_async for g in gens)):
+    raise AnalysisError(
+        f"{what}: `{src(st)[:120]}` counts something other than the elements "
+        "of one closure per union member")
+  if f"{u}.type_list" not in src(gens[0].iter):
+    raise AnalysisError(
+        f"{what}: `{src(call)}` is not evaluated once per union member")
+  vals = _local_values(m, counter)
+  if vals is None or len(vals) != 1:
+    raise AnalysisError(f"{what}: the counter `{counter}` is bound more than once")
+  return gens[0].target.id
+
+
 def _absorb_shape(mod, cls, m, u, attr, model):
   """Subset shape: `return JoinTypes([t for t in u.type_list if COUNT[key(t)]
   <= 1])` where COUNT accumulates the closure of every member.
@@ -947,6 +1077,15 @@ def _absorb_shape(mod, cls, m, u, attr, model):
   feeding = []
   for call, meth in queries:
     st = mod.enclosing_stmt(call)
+    member = _counter_of_generator(mod, m, call, st, counter, u, what)
+    if member is not None:
+      # COUNT = Counter(name for T in <u.type_list> [if ..] for name in QUERY(key(T)))
+      if len(call.args) != 1 or _rename(call.args[0], member) != key:
+        raise AnalysisError(
+            f"{what}: closure is keyed by `{src(call.args[0]) if call.args else ''}` "
+            f"but the filter probes `{src(g.ifs[0])}`")
+      feeding.append((meth, sorted(_query_direction(model, meth, what))))
+      continue
     feeds = (isinstance(st, ast.AugAssign) and isinstance(st.op, ast.Add)
              and isinstance(st.target, ast.Name) and st.target.id == counter) or (
                  isinstance(st, ast.Expr) and isinstance(st.value, ast.Call)
@@ -1048,7 +1187,7 @@ def _common_shape(mod, cls, m, u, attr, model):
 
 def check_hierarchy_direction(ctx):
   """Shared by R11.6 and R1.6 (C01)."""
-  mod = get_module(ctx, OPT)
+  mod = _opt(ctx)
   fn = mod.func("Optimize")
   model = _hierarchy_model(ctx, mod)
   dirs = sorted(model["arg_dirs"])
@@ -1068,7 +1207,7 @@ def check_hierarchy_direction(ctx):
     if cls in seen:
       continue
     seen.add(cls)
-    m = mod.methods(cls).get("VisitUnionType")
+    m = _methods(mod, cls).get("VisitUnionType")
     if m is None or len(m.args.args) != 2:
       raise AnalysisError(f"{cls}: VisitUnionType(self, union) not found")
     u = m.args.args[1].arg
@@ -1133,7 +1272,7 @@ def _applied_passes(mod, fn, unit):
 @rule("R11.7", "C11", floor=3)
 def r11_7(ctx):
   """A pass that reasons about bare class names runs on simplified containers."""
-  mod = get_module(ctx, OPT)
+  mod = _opt(ctx)
   fn = mod.func("Optimize")
   consumers = {}
   for cls, call in _hierarchy_consumers(mod, fn):
@@ -1141,7 +1280,7 @@ def r11_7(ctx):
   if not consumers:
     raise AnalysisError("Optimize: no visitor is constructed with the hierarchy")
   for cls in consumers:
-    m = mod.methods(cls).get("VisitUnionType")
+    m = _methods(mod, cls).get("VisitUnionType")
     if m is None:
       raise AnalysisError(f"{cls}: VisitUnionType not found")
     attr = _hierarchy_attr(mod, cls)
@@ -1169,12 +1308,14 @@ def r11_7(ctx):
 
   f = flow.flow(fn, gen, kill, mode="must")
   sites = {}
+  order = _u.stmt_order(fn)   # source order, also of statements inlined from helpers
   for n in ast.walk(fn):
     if isinstance(n, ast.stmt) and not isinstance(
         n, _FUNCS + (ast.If, ast.For, ast.While, ast.With, ast.Try)):
       for cls in _applied_passes(mod, fn, n) & set(consumers):
         sites.setdefault(cls, []).append(n)
   last_consumer_line = 0
+  last_consumer_rank = -1
   for cls in sorted(consumers):
     if cls not in sites:
       raise AnalysisError(f"Optimize constructs {cls} but never applies it")
@@ -1183,6 +1324,7 @@ def r11_7(ctx):
       if before is None:
         raise AnalysisError(f"Optimize: application of {cls} is unreachable")
       last_consumer_line = max(last_consumer_line, st.lineno)
+      last_consumer_rank = max(last_consumer_rank, order[st])
       construct = f"Optimize:{cls}:runs-on-simplified-containers" + (
           "" if i == 0 else f"#{i + 1}")
       ctx.check("bare" in before, construct, OPT, st.lineno,
@@ -1200,7 +1342,7 @@ def r11_7(ctx):
   late = sorted({p for n in ast.walk(fn) if isinstance(n, ast.stmt)
                  and not isinstance(n, _FUNCS + (ast.If, ast.For, ast.While,
                                                  ast.With, ast.Try))
-                 and n.lineno > last_consumer_line
+                 and order[n] > last_consumer_rank
                  for p in _applied_passes(mod, fn, n) & CREATES_ANY_CONTAINER})
   ctx.check(not late, "Optimize:no-X[Any]-producer-after-last-hierarchy-pass", OPT,
             last_consumer_line,
@@ -1367,6 +1509,37 @@ VARIANTS = [
     {"name": "twin-hierarchy-pass-object-built-early", "rule": "R11.7", "expect": "silent",
      "edits": [(OPT, "    node = node.Visit(SimplifyUnionsWithSuperclasses(hierarchy))",
                 "    absorb = SimplifyUnionsWithSuperclasses(hierarchy)\n    node = node.Visit(absorb)")]},
+    # second batch of behaviour-preserving refactorings: the refactored shape is a
+    # must-silent twin, refactoring + defect must fire (benign/<id>/*.diff)
+    {"name": "twin-benign-C11-r1-jointypes-early-returns", "rule": "R11.3", "patch": "benign/C11-r1/patch.diff", "expect": "silent"},
+    {"name": "C11-r1+any-none-arm-returns-none", "rule": "R11.3", "patch": "benign/C11-r1/defect_any_none_arm_returns_none.diff", "expect": "fire"},
+    {"name": "C11-r1+any-arm-keeps-first-member", "rule": "R11.3", "patch": "benign/C11-r1/defect_any_arm_keeps_first_member.diff", "expect": "fire"},
+    {"name": "C11-r1+any-test-not-negated", "rule": "R11.3", "patch": "benign/C11-r1/defect_any_test_not_negated.diff", "expect": "fire"},
+    {"name": "C11-r1+early-return-for-two-members", "rule": "R11.3", "patch": "benign/C11-r1/unsupported_early_return_two_members.diff", "expect": "error"},
+    {"name": "twin-benign-C11-r4-table-driven-passes", "rule": "R11.7", "patch": "benign/C11-r4/patch.diff", "expect": "silent"},
+    {"name": "C11-r4+abcs-flag-constant-true", "rule": "R11.2", "patch": "benign/C11-r4/defect_abcs_flag_constant_true.diff", "expect": "fire"},
+    {"name": "C11-r4+abcs-guard-in-helper-tests-other-flag", "rule": "R11.2", "patch": "benign/C11-r4/defect_abcs_guard_in_helper_wrong_flag.diff", "expect": "fire"},
+    {"name": "C11-r4+lossy-pass-unguarded-via-helper", "rule": "R11.2", "patch": "benign/C11-r4/defect_lossy_pass_unguarded_via_helper.diff", "expect": "fire"},
+    {"name": "C11-r4+collapse-in-first-table", "rule": "R11.2", "patch": "benign/C11-r4/defect_collapse_in_first_table_after_simplify.diff", "expect": "fire"},
+    {"name": "C11-r4+collapse-in-first-table-before-hierarchy-pass", "rule": "R11.7", "patch": "benign/C11-r4/defect_collapse_in_first_table_after_simplify.diff", "expect": "fire"},
+    {"name": "C11-r4+simplify-before-combine-in-table", "rule": "R11.7", "patch": "benign/C11-r4/defect_simplify_before_combine_in_table.diff", "expect": "fire"},
+    {"name": "C11-r4+rejoin-before-adjust-in-table", "rule": "R11.5", "patch": "benign/C11-r4/defect_rejoin_before_adjust_in_table.diff", "expect": "fire"},
+    {"name": "C11-r4+final-simplify-dropped", "rule": "R11.4", "patch": "benign/C11-r4/defect_final_simplify_dropped.diff", "expect": "fire"},
+    {"name": "C11-r4+absorb-counts-superclass-closure", "rule": "R11.6", "patch": "benign/C11-r4/defect_absorb_counts_superclass_closure.diff", "expect": "fire"},
+    {"name": "C11-r4+helper-merges-subclass-mapping", "rule": "R11.6", "patch": "benign/C11-r4/defect_helper_merges_subclass_mapping.diff", "expect": "fire"},
+    {"name": "C11-r4+base-class-does-not-store-hierarchy", "rule": "R11.6", "patch": "benign/C11-r4/defect_base_class_stores_other_object.diff", "expect": "error"},
+    {"name": "C11-r4+helper-call-in-expression", "rule": "R11.4", "patch": "benign/C11-r4/unsupported_helper_call_in_expression.diff", "expect": "error"},
+    {"name": "twin-first-passes-in-a-literal-table", "rule": "R11.7", "file": OPT, "expect": "silent",
+     "old": "  node = node.Visit(CombineContainers())\n  node = node.Visit(SimplifyContainers())\n  if deps:",
+     "new": "  for v in (CombineContainers(), SimplifyContainers()):\n    node = node.Visit(v)\n  if deps:"},
+    {"name": "first-passes-in-a-literal-table-wrong-order", "rule": "R11.7", "file": OPT, "expect": "fire",
+     "old": "  node = node.Visit(CombineContainers())\n  node = node.Visit(SimplifyContainers())\n  if deps:",
+     "new": "  for v in (SimplifyContainers(), CombineContainers()):\n    node = node.Visit(v)\n  if deps:"},
+    {"name": "twin-hierarchy-visitor-init-in-local-base", "rule": "R11.6", "expect": "silent",
+     "edits": [(OPT, "class SimplifyUnionsWithSuperclasses(visitors.Visitor):",
+                "class _WithHierarchy(visitors.Visitor):\n\n  def __init__(self, hierarchy):\n    super().__init__()\n    self.hierarchy = hierarchy\n\n\nclass SimplifyUnionsWithSuperclasses(_WithHierarchy):"),
+               (OPT, "   A union B = A, if B is a subset of A.)\n  \"\"\"\n\n  def __init__(self, hierarchy):\n    super().__init__()\n    self.hierarchy = hierarchy\n",
+                "   A union B = A, if B is a subset of A.)\n  \"\"\"\n")]},
     {"name": "revert-D46-no-final-hierarchy-pass", "rule": "R11.7", "file": OPT, "expect": "fire",
      "old": "  if deps:\n    # SimplifyContainers can expose a bare class (list[Any] -> list) that the\n    # hierarchy pass above could not yet relate to its subclasses.\n    node = node.Visit(SimplifyUnionsWithSuperclasses(hierarchy))\n",
      "new": ""},
